@@ -41,6 +41,7 @@ func inPlaceMutations(funcs []*ssa.Function, structName string, fields map[strin
 }
 
 func c32(r *core.Run) {
+	c32OneRecordPerPeer(r)
 	w := r.W
 	const AP = "pkg/accounting.accountingPeer"
 	const AC = "pkg/accounting.Accounting"
